@@ -150,6 +150,21 @@ fn run_scenario(sc: &Scenario, src: &str, lowered: Option<&tx3_tir::model::v1bet
     let utxos = sem::utxos_for(sc);
     let run = execute_with(sc, src, lowered);
     let src = src.to_string();
+    if let Ok(pat) = std::env::var("VERIF_C02_TRACE") {
+        if sc.labels.iter().any(|l| l.contains(&pat)) {
+            let kind = match &run {
+                Run::Ok(..) => "ok".to_string(),
+                Run::Panic(_) => "panic".to_string(),
+                Run::Undecodable(_) => "undecodable".to_string(),
+                Run::FrontRejected(e) => format!("front:{e}"),
+                Run::PipelineErr(stage, e) => format!("err:{stage}:{}", crate::engine::first_line(e, 80)),
+            };
+            use std::io::Write;
+            if let Ok(mut f) = std::fs::OpenOptions::new().create(true).append(true).open("/verif/target/c02.trace") {
+                let _ = writeln!(f, "TRACE {:?} q={} n={} den={} run={kind}", sc.labels, sc.q, sc.n, match &den { Denotation::Tx(_) => "tx".to_string(), Denotation::MustFail(r) => format!("must-fail:{r}"), Denotation::Undefined(r) => format!("undef:{r}") });
+            }
+        }
+    }
     match run {
         Run::Ok(rec, _) => judge_ok(sc, &den, &rec, &utxos, "pipeline", o, &detail(&src)),
         Run::Panic(_) => o.class("pipeline:panic(C14)"),
